@@ -95,6 +95,14 @@ func init() {
 		QuickRuns: 3000, QuickSecs: 60, ThorRuns: 50000, ThorSecs: 900,
 	})
 	Register(&Check{
+		ID: "C19", Engine: "netsim",
+		Real:      []string{"mpc/binance/eddsa and mpc/binance/ecdsa adapters (ClassifyMsg, OnMsg, KeyGen, Sign)", "bnb-chain/tss-lib v2.0.2 (real protocol, its own goroutines)", "threshold.Scheme", "rbc.Receiver", "disc.Member", "disc.SilentSynchronizer", "msg.Box", "crypto/ed25519 and crypto/ecdsa as independent verifiers"},
+		Stub:      append([]string{"recording proxy around the adapters (captures sendMsg routing flags)", "a participant that re-sends other parties' payloads under its own identity (20% of the EdDSA runs)"}, e1Stub...),
+		Rule:      "one case = one seeded run of KeyGen followed by Sign among t+1 nodes through the full stack, (n,t) in {(2,1),(3,1),(3,2),(4,2),(4,3)}, EdDSA (ECDSA in ~4% of quick and 12% of thorough runs: 20-60 s each), digest shapes: 32 random bytes, leading zero byte(s), 1..20 bytes, 64 bytes; distinct = distinct schedule fingerprint; non-trivial = cross-link delivery inversions occurred and at least one signature was returned and checked",
+		Assume:    []string{"tss-lib internals are not byte-reproducible (goroutine pools, own randomness): traces of these runs are compared by schedule only", "in tss-lib v2.0.2 the wire bytes carry no sender; the adapter's claimed-sender test compares the transport sender with itself, so the sender-binding clause is exercised only behaviourally (replayed payloads under another authenticated identity)"},
+		QuickRuns: 160, QuickSecs: 110, ThorRuns: 4000, ThorSecs: 1500, Batch: 5,
+	})
+	Register(&Check{
 		ID: "C20", Engine: "netsim", Race: true,
 		Real:      []string{"threshold.Scheme", "disc.Member", "disc.SilentSynchronizer", "rbc.Receiver", "msg.Box", "mpc/bls TBLS", "mpc/ps TPS - all compiled with the Go race detector"},
 		Stub:      append([]string{"MPC backend (scripted) in the session-history scenarios", "the deviating participant's NIC (early / duplicated / out-of-phase / malformed DKG messages)"}, e1Stub...),
